@@ -174,7 +174,7 @@ class R7(ARig):
         return None
 
 
-def _run(ch, seq, offs, waiter, window, hdelay=0.0):
+def _run(ch, seq, offs, waiter, window, hdelay=0.0, start=0.0):
     rig = R7(ch, window)
     rig.handler_delay = hdelay
     if rig.failure is not None:
@@ -193,6 +193,20 @@ def _run(ch, seq, offs, waiter, window, hdelay=0.0):
         with rig.loop.running():
             rig.loop.create_task(spa._protocol.get(
                 lambda: GeckoPingProtocolHandler.request(parms=spa.sendparms), None, 1), name="HARNESS:waiter:ping")
+    elif waiter == "ping-retry":
+        # a request whose first attempt is lost: times out after 4 s, pauses 2 s, retries and is answered
+        dropped = []
+
+        def drop(data, src):
+            if b"APING" in data and not dropped:
+                dropped.append(1)
+                return True
+            return False
+
+        rig.peer.drop_request = drop
+        with rig.loop.running():
+            rig.loop.create_task(spa._protocol.get(
+                lambda: GeckoPingProtocolHandler.request(parms=spa.sendparms), None, 2), name="HARNESS:waiter:ping")
     elif waiter == "status":
         rig.peer.set_block(blk0)  # a refresh must not change anything by itself
 
@@ -204,7 +218,7 @@ def _run(ch, seq, offs, waiter, window, hdelay=0.0):
             rig.loop.create_task(spa.struct.get(spa._protocol, factory, retry_count=1), name="HARNESS:waiter:status")
     rig.loop.run_for(0.12)  # the waiter's request is out, its reply traffic is arriving
     rig.loop.timer_choices_enabled = True
-    at = 0.0
+    at = max(0.0, start - 0.12)
     sent_at = []
     for k, idx in enumerate(seq):
         if k:
@@ -277,15 +291,17 @@ def _job(job):
     prefix = job[1]
     seq, offs, waiter, window = job[0][:4]
     hdelay = job[0][4] if len(job[0]) > 4 else 0.0
+    start = job[0][5] if len(job[0]) > 5 else 0.0
 
     def body(ch):
-        why, obs = _run(ch, seq, offs, waiter, window, hdelay)
+        why, obs = _run(ch, seq, offs, waiter, window, hdelay, start)
         viol = []
         if why:
             dev = [(k, c) for k, n, c in ch.trace if c]
             viol.append((f"C07|{why[0]}|first={NAMES[seq[0]]}|waiter={waiter}",
-                         f"arrivals {[NAMES[i] for i in seq]} offsets {list(offs)} waiter={waiter} deviations {dev}: {why[1]}",
-                         {"seq": list(seq), "offs": list(offs), "waiter": waiter, "window": window, "hdelay": hdelay,
+                         f"arrivals {[NAMES[i] for i in seq]} offsets {list(offs)} waiter={waiter}"
+                         f"{f' first arrival {start:.2f}s after the request' if start else ''} deviations {dev}: {why[1]}",
+                         {"seq": list(seq), "offs": list(offs), "waiter": waiter, "window": window, "hdelay": hdelay, "start": start,
                           "prefix": [list(p) for p in ch.trace]}))
         return {"violations": viol, "obs": obs, "end": obs}
 
@@ -323,6 +339,15 @@ def run(ctx):
             for s in l3:
                 for o in itertools.product(OFFS, repeat=2):
                     plans.append((s, o, w, 0.0))
+    # a request in every phase of the engine (waiting, timing out at 4 s, pausing, retrying at 6 s): arrivals on a
+    # 20 ms grid around the time-out and the retry instants
+    grid = [round(3.8 + 0.02 * i, 2) for i in range(26)] + [round(5.7 + 0.02 * i, 2) for i in range(36)]
+    sub = [i for i, a in enumerate(ALPHABET) if a[0] in ("statp", "rferr", "unknown-verb", "ping-reply", "bare-unknown", "statp-wrong-dst")]
+    for g in grid if not ctx.quick else grid[::2]:
+        for a in sub:
+            plans.append(((a,), (), "ping-retry", 0.0, 0.0, g))
+        for a, b in ((1, 4), (4, 1), (0, 1), (2, 1)):
+            plans.append(((a, b), (0.05,), "ping-retry", 0.0, 0.0, g))
     execs = 0
     states = set()
     jobs = [(p, ()) for p in plans]
@@ -362,7 +387,8 @@ def run(ctx):
 
 
 def replay(ctx, data):
-    res = _job(((tuple(data["seq"]), tuple(data["offs"]), data["waiter"], data["window"], data.get("hdelay", 0.0)),
+    res = _job(((tuple(data["seq"]), tuple(data["offs"]), data["waiter"], data["window"], data.get("hdelay", 0.0),
+                 data.get("start", 0.0)),
                 [tuple(p) for p in data["prefix"]]))
     ctx.merge_violations(res["violations"])
     ctx.set("states", 1)
